@@ -5,6 +5,7 @@ Import ListNotations.
 From Verif Require Import Chan.Sem Chan.Expected Chan.Lemmas Chan.JoinCC.
 
 Local Arguments Nat.ltb : simpl never.
+Local Arguments JoinCC.N : simpl never.
 
 Ltac inv_some :=
   match goal with
@@ -19,6 +20,9 @@ Ltac light2 := try solve [intros; repeat split; light].
 Ltac keep_main b HMain :=
   try solve [exists b; split; [assumption|split;
              [first [assumption | (rewrite <- ?app_assoc; assumption)] | exact HMain]]].
+Ltac norm_state :=
+  unfold set_ch, set_thr, set_wg, add_thr, JoinCC.mk;
+  cbn [thr chs wg panicked upd orem opd ibuf ic mpc mc mok mres ob oc log cd w prods chans fwds dls].
 Ltac show_goal := match goal with |- ?G => idtac "GOAL:" G end.
 
 Ltac side :=
@@ -59,7 +63,7 @@ Ltac split_cond :=
 
 Ltac pcs9 pc0 := destruct pc0 as [|[|[|[|[|[|[|[|[|pc0]]]]]]]]]; try lia.
 
-Ltac mu_base := unfold mu, mk; cbn [thr chs]; unfold sumw; cbn; rewrite ?map_app, ?list_sum_app; cbn;
+Ltac mu_base := unfold fwd_thr in *; cbn [Nat.add] in *; unfold mu, mk; cbn [thr chs]; unfold sumw; cbn; rewrite ?map_app, ?list_sum_app; cbn;
   rewrite ?app_length; cbn; try lia.
 
 Section JCCP.
@@ -139,7 +143,7 @@ Ltac main_case b HMain :=
   unfold MainI in *; cbn in *; exists b; repeat split; auto; try lia; try solve [side].
 
 Ltac auto_cond b HMain :=
-  split_cond; [> light; light2; try solve [cbn; lia]; try solve [main_case b HMain]; try solve [side] ..].
+  split_cond; [> unfold sumw in *; light; light2; try solve [cbn; lia]; try solve [main_case b HMain]; try solve [side] ..].
 
 Lemma step_main s s' : Inv s -> step f PJ s (Tau 1) = Some s' -> Inv s' /\ mu s' < mu s.
 Proof.
@@ -200,6 +204,224 @@ Proof.
   - (* 7: close(out) *)
     destruct oc0; [side|]. inv_some. split.
     + new_state dls0. auto_cond b HMain. all: show_goal.
+    + mu_base.
+  - discriminate.
+Qed.
+
+(* ---------- frame: an update at index n leaves the pool invariant of j <> n intact ---------- *)
+Definition oupd {A} (l:list A) (n:nat) (o:option A) : list A :=
+  match o with Some a => upd l n a | None => l end.
+
+Lemma nth_error_oupd_neq {A} (l:list A) n m o : n <> m -> nth_error (oupd l n o) m = nth_error l m.
+Proof. intros H. destruct o; cbn; [apply nth_error_upd_neq; auto|reflexivity]. Qed.
+
+Lemma pool_frame prods0 chans0 fwds0 dls0 n op oc of od j :
+  j <> n -> PoolI inputs prods0 chans0 fwds0 dls0 j ->
+  PoolI inputs (oupd prods0 n op) (oupd chans0 n oc) (oupd fwds0 n of) (oupd dls0 n od) j.
+Proof.
+  intros Hne (cp & its & r & d & ch & dl & E1 & E2 & E3 & E4 & E5 & E6 & E7 & E8 & HF).
+  exists cp, its, r, d, ch, dl. rewrite !nth_error_oupd_neq by auto. repeat split; auto.
+Qed.
+
+Ltac frame_or n :=
+  let j := fresh "j" in let Hj := fresh "Hj" in let Hne := fresh "Hne" in
+  intros j Hj; destruct (Nat.eq_dec j n) as [->|Hne];
+  [|match goal with
+    | HP : forall j, j < _ -> PoolI _ ?p ?c ?fw ?d j |- PoolI _ ?p' ?c' ?fw' ?d' _ =>
+        first [ exact (pool_frame p c fw d n None None None None j Hne (HP j Hj))
+              | exact (pool_frame p c fw d n (Some _) None None None j Hne (HP j Hj))
+              | exact (pool_frame p c fw d n (Some _) (Some _) None None j Hne (HP j Hj))
+              | exact (pool_frame p c fw d n None (Some _) (Some _) None j Hne (HP j Hj))
+              | exact (pool_frame p c fw d n None None (Some _) None j Hne (HP j Hj))
+              | exact (pool_frame p c fw d n None None (Some _) (Some _) j Hne (HP j Hj))
+              | exact (pool_frame p c fw d n (Some _) None (Some _) None j Hne (HP j Hj)) ]
+    end].
+
+(* ---------- inner producer n ---------- *)
+Lemma step_prod s s' n :
+  n < N -> Inv s -> step f PJ s (Tau (3 + n)) = Some s' -> Inv s' /\ mu s' < mu s.
+Proof.
+  intros Hn. open_inv H. unfold step in H; cbn [panicked mk] in H. cbn in H.
+  rewrite nth_error_app1 in H by lia.
+  destruct (HP n Hn) as (cp & its & r & d & ch & dl & E1 & E2 & E3 & E4 & E5 & E6 & E7 & E8 & HF).
+  rewrite E2 in H. cbn in H. destruct ch as [chcap chbuf chcl]. cbn in E4, E6, E7, E8. subst chcap d.
+  destruct chcl; [destruct r; cbn in H; discriminate|].
+  destruct r as [|i r]; cbn in H; rewrite E3 in H; cbn in H.
+  - (* close *)
+    inv_some. norm_state. rewrite !upd_app_l by lia.
+    pose proof (sumw_upd tw prods0 n _ (TProd (S (S n)) [] true) E2) as Htw.
+    pose proof (sumw_upd cw chans0 n _ {| cap := cp; buf := chbuf; closed := true |} E3) as Hcw.
+    unfold sumw in Htw, Hcw; cbn in Htw, Hcw.
+    split.
+    + new_state4 (upd prods0 n (TProd (S (S n)) [] true))
+                 (upd chans0 n {| cap := cp; buf := chbuf; closed := true |}) fwds0 dls0.
+      auto_cond b HMain.
+      * rewrite upd_length; assumption.
+      * rewrite upd_length; assumption.
+      * frame_or n.
+        exists cp, its, [], true, {| cap := cp; buf := chbuf; closed := true |}, dl.
+        rewrite !nth_error_upd_eq by lia. repeat split; auto.
+        destruct (nth_error fwds0 n) as [t|]; cbn in *; [|exact HF].
+        destruct HF as (fpc & fr & fok & Ht & Hf5 & Hits & Hf1 & Hf4).
+        exists fpc, fr, fok. repeat split; auto; intros; try (destruct Hf1; auto; discriminate);
+          try (destruct Hf4; auto; discriminate).
+    + mu_base.
+  - (* send through the buffer *)
+    destruct (length chbuf <? cp) eqn:E; cbn in H; [|discriminate].
+    inv_some. norm_state. rewrite !upd_app_l by lia.
+    pose proof (sumw_upd tw prods0 n _ (TProd (S (S n)) r false) E2) as Htw.
+    pose proof (sumw_upd cw chans0 n _ {| cap := cp; buf := chbuf ++ [i]; closed := false |} E3) as Hcw.
+    unfold sumw in Htw, Hcw; cbn in Htw, Hcw. rewrite app_length in Hcw; cbn in Hcw.
+    split.
+    + new_state4 (upd prods0 n (TProd (S (S n)) r false))
+                 (upd chans0 n {| cap := cp; buf := chbuf ++ [i]; closed := false |}) fwds0 dls0.
+      auto_cond b HMain.
+      * rewrite upd_length; assumption.
+      * rewrite upd_length; assumption.
+      * frame_or n.
+        exists cp, its, r, false, {| cap := cp; buf := chbuf ++ [i]; closed := false |}, dl.
+        rewrite !nth_error_upd_eq by lia. apply Nat.ltb_lt in E.
+        repeat split; auto; try discriminate.
+        { cbn. rewrite app_length; cbn; lia. }
+        destruct (nth_error fwds0 n) as [t|]; cbn in *.
+        -- destruct HF as (fpc & fr & fok & Ht & Hf5 & Hits & Hf1 & Hf4).
+           exists fpc, fr, fok. repeat split; auto; intros;
+             try (destruct Hf1 as (X & _ & _); auto; discriminate);
+             try (destruct Hf4 as (X & _ & _); auto; discriminate).
+           rewrite Hits. rewrite <- !app_assoc. reflexivity.
+        -- destruct HF as [-> ->]. split; auto. rewrite <- app_assoc. reflexivity.
+    + mu_base.
+Qed.
+
+(* ---------- forwarder m ---------- *)
+Ltac fwd_facts fwds0 m Ef T' :=
+  let Hact := fresh "Hact" in let Htw := fresh "Htw" in
+  pose proof (sumw_upd act fwds0 m _ T' Ef) as Hact;
+  pose proof (sumw_upd tw fwds0 m _ T' Ef) as Htw;
+  unfold sumw in Hact, Htw; cbn in Hact, Htw.
+
+Ltac pcs6 pc0 := destruct pc0 as [|[|[|[|[|[|pc0]]]]]]; try lia.
+
+Lemma step_fwd s s' m :
+  Inv s -> step f PJ s (Tau (3 + N + m)) = Some s' -> Inv s' /\ mu s' < mu s.
+Proof.
+  open_inv H. unfold step in H; cbn [panicked mk] in H. cbn in H.
+  rewrite <- HLp in H. rewrite nth_error_app_r in H.
+  destruct (nth_error fwds0 m) as [t|] eqn:Ef; [|discriminate].
+  assert (Hm : m < N) by (apply nth_error_lt in Ef; lia).
+  destruct (HP m Hm) as (cp & its & r & d & ch & dl & E1 & E2 & E3 & E4 & E5 & E6 & E7 & E8 & HF).
+  rewrite Ef in HF. cbn in HF. destruct HF as (fpc & fr & fok & Ht & Hf5 & Hits & Hf1 & Hf4). subst t.
+  destruct ch as [chcap chbuf chcl]. cbn in E4, E6, E7, E8, Hits, Hf1, Hf4. subst chcap d.
+  assert (Hlen : length prods0 + m = length prods0 + m) by reflexivity.
+  pcs6 fpc; cbn in H.
+  - (* 0: r, ok := <-res *)
+    unfold recv_buf in H; cbn in H. rewrite E3 in H. cbn in H. destruct chbuf as [|i rest].
+    + destruct chcl; [|discriminate]. inv_some. norm_state. rewrite upd_app_r.
+      fwd_facts fwds0 m Ef (fwd_thr m 1 0 (VB false)). split.
+      * new_state4 prods0 chans0 (upd fwds0 m (fwd_thr m 1 0 (VB false))) dls0.
+        auto_cond b HMain.
+        -- rewrite upd_length; assumption.
+        -- frame_or m.
+           eexists cp, _, r, true, {| cap := cp; buf := []; closed := true |}, dl.
+           rewrite !nth_error_upd_eq by (apply nth_error_lt in Ef; lia).
+           repeat split; auto; [exact E1|]. cbn.
+           exists 1, 0, (VB false). assert (Hr : r = []) by auto. subst r. repeat split; auto; try lia.
+        -- unfold MainI in *; cbn in *. rewrite upd_length. exists b. repeat split; auto.
+      * mu_base.
+    + inv_some. norm_state. rewrite upd_app_r.
+      fwd_facts fwds0 m Ef (fwd_thr m 1 i (VB true)).
+      pose proof (sumw_upd cw chans0 m _ {| cap := cp; buf := rest; closed := chcl |} E3) as Hcw.
+      unfold sumw in Hcw; cbn in Hcw. split.
+      * new_state4 prods0 (upd chans0 m {| cap := cp; buf := rest; closed := chcl |})
+                   (upd fwds0 m (fwd_thr m 1 i (VB true))) dls0.
+        auto_cond b HMain.
+        -- rewrite upd_length; assumption.
+        -- rewrite upd_length; assumption.
+        -- frame_or m.
+           eexists cp, _, r, chcl, {| cap := cp; buf := rest; closed := chcl |}, dl.
+           rewrite !nth_error_upd_eq by (apply nth_error_lt in Ef; lia).
+           repeat split; auto; [exact E1| cbn in *; lia |]. cbn.
+           exists 1, i, (VB true). repeat split; auto; try lia; try discriminate.
+        -- unfold MainI in *; cbn in *. rewrite upd_length. exists b. repeat split; auto.
+      * mu_base.
+  - (* 1: if ok *)
+    inv_some. norm_state. rewrite upd_app_r.
+    destruct (match fok with VB b0 => b0 | _ => false end) eqn:Eok.
+    + fwd_facts fwds0 m Ef (fwd_thr m 2 fr fok). split.
+      * new_state4 prods0 chans0 (upd fwds0 m (fwd_thr m 2 fr fok)) dls0.
+        auto_cond b HMain.
+        -- rewrite upd_length; assumption.
+        -- frame_or m.
+           eexists cp, _, r, chcl, {| cap := cp; buf := chbuf; closed := chcl |}, dl.
+           rewrite !nth_error_upd_eq by (apply nth_error_lt in Ef; lia).
+           repeat split; auto; [exact E1|]. cbn.
+           exists 2, fr, fok. repeat split; auto; try lia; try discriminate.
+           rewrite Eok. reflexivity.
+        -- unfold MainI in *; cbn in *. rewrite upd_length. exists b. repeat split; auto.
+      * mu_base. rewrite Eok in Htw. lia.
+    + fwd_facts fwds0 m Ef (fwd_thr m 4 fr fok).
+      destruct (Hf1 eq_refl eq_refl) as (Hc1 & Hc2 & Hc3). subst chcl chbuf r. split.
+      * new_state4 prods0 chans0 (upd fwds0 m (fwd_thr m 4 fr fok)) dls0.
+        auto_cond b HMain.
+        -- rewrite upd_length; assumption.
+        -- frame_or m.
+           eexists cp, _, [], true, {| cap := cp; buf := []; closed := true |}, dl.
+           rewrite !nth_error_upd_eq by (apply nth_error_lt in Ef; lia).
+           repeat split; auto; [exact E1|]. cbn.
+           exists 4, fr, fok. repeat split; auto; try lia; try discriminate.
+           rewrite Eok. reflexivity.
+        -- unfold MainI in *; cbn in *. rewrite upd_length. exists b. repeat split; auto.
+      * mu_base. rewrite Eok in Htw. lia.
+  - (* 2: out <- r *)
+    assert (Hocf : oc0 = false).
+    { destruct oc0; [exfalso|reflexivity]. destruct Hoc as [Hoc _]. specialize (Hoc eq_refl). subst mpc0.
+      pose proof (sumw_ge act fwds0 m _ Ef) as G. cbn in G. assert (L : 7 <= 8) by lia.
+      specialize (H7 L). lia. }
+    subst oc0. cbn in H.
+    destruct (length ob0 <? cout) eqn:E; cbn in H; [|discriminate].
+    inv_some. norm_state. rewrite upd_app_r.
+    fwd_facts fwds0 m Ef (fwd_thr m 3 fr fok). split.
+    + new_state4 prods0 chans0 (upd fwds0 m (fwd_thr m 3 fr fok)) (upd dls0 m (dl ++ [fr])).
+      auto_cond b HMain.
+      * rewrite upd_length; assumption.
+      * rewrite upd_length; assumption.
+      * frame_or m.
+        eexists cp, _, r, chcl, {| cap := cp; buf := chbuf; closed := chcl |}, (dl ++ [fr]).
+        rewrite !nth_error_upd_eq by (apply nth_error_lt in Ef; lia).
+        repeat split; auto; [exact E1|]. cbn.
+        exists 3, fr, fok. repeat split; auto; try lia; try discriminate.
+        rewrite <- !app_assoc. reflexivity.
+      * rewrite app_assoc. apply Merge_snoc; assumption.
+      * unfold MainI in *; cbn in *. rewrite upd_length. exists b. repeat split; auto.
+    + mu_base.
+  - (* 3: loop *)
+    inv_some. norm_state. rewrite upd_app_r.
+    fwd_facts fwds0 m Ef (fwd_thr m 0 fr fok). split.
+    + new_state4 prods0 chans0 (upd fwds0 m (fwd_thr m 0 fr fok)) dls0.
+      auto_cond b HMain.
+      * rewrite upd_length; assumption.
+      * frame_or m.
+        eexists cp, _, r, chcl, {| cap := cp; buf := chbuf; closed := chcl |}, dl.
+        rewrite !nth_error_upd_eq by (apply nth_error_lt in Ef; lia).
+        repeat split; auto; [exact E1|]. cbn.
+        exists 0, fr, fok. repeat split; auto; try lia; try discriminate.
+      * unfold MainI in *; cbn in *. rewrite upd_length. exists b. repeat split; auto.
+    + mu_base.
+  - (* 4: wait.Done() *)
+    pose proof (sumw_ge act fwds0 m _ Ef) as G. cbn in G.
+    destruct w0 as [|k]; [exfalso; lia|].
+    assert (L4 : 4 <= 4) by lia. destruct (Hf4 L4) as (Hc1 & Hc2 & Hc3). cbn in Hc1, Hc2. subst chcl chbuf r.
+    inv_some. norm_state. rewrite upd_app_r.
+    fwd_facts fwds0 m Ef (fwd_thr m 5 fr fok). split.
+    + new_state4 prods0 chans0 (upd fwds0 m (fwd_thr m 5 fr fok)) dls0.
+      auto_cond b HMain.
+      * rewrite upd_length; assumption.
+      * frame_or m.
+        eexists cp, _, [], true, {| cap := cp; buf := []; closed := true |}, dl.
+        rewrite !nth_error_upd_eq by (apply nth_error_lt in Ef; lia).
+        repeat split; auto; [exact E1|]. cbn.
+        exists 5, fr, fok. repeat split; auto; try lia; try discriminate.
+      * unfold MainI in *; cbn in *. rewrite upd_length. exists b. repeat split; auto.
     + mu_base.
   - discriminate.
 Qed.
